@@ -354,6 +354,83 @@ theorem get_is_projection_of_global (e : Env) (s : State) (hI : Inv e s) (slot :
   · rw [isort_dofs_eq_selIdx hI sel l hsel hreg' hl, k2, ← hI.numbered]
     rfl
 
+/-! ### index validation of the getter and the setter -/
+
+/-- `_validate_indices` + the one-index rule of `get_solution_values`: exactly one non-negative
+    index is accepted; both given, both None, or a negative index are a ValueError. -/
+theorem validateGet_spec (iter ts : Option Int) :
+    validateGet iter ts =
+      match iter, ts with
+      | some i, none => if i < 0 then .error .value else .ok (true, i.toNat)
+      | none, some t => if t < 0 then .error .value else .ok (false, t.toNat)
+      | _, _ => .error .value := by
+  cases iter <;> cases ts
+  · simp [validateGet, validateSet]
+  · rename_i t; by_cases h : t < 0 <;> simp [validateGet, validateSet, h]
+  · rename_i i; by_cases h : i < 0 <;> simp [validateGet, validateSet, h]
+  · rename_i i t; by_cases h : i < 0 ∨ t < 0 <;> simp [validateGet, validateSet, h]
+
+/-- A read with inadmissible indices never changes the state; it raises ValueError as soon as one
+    requested variable is registered, and returns the empty vector otherwise. -/
+theorem get_bad_indices (e : Env) (s : State) (hI : Inv e s) (refs : Option (List Ref))
+    (iter ts : Option Int) (err : Err) (hbad : validateGet iter ts = .error err) :
+    step e s (.getVals refs iter ts) =
+      (s, if selected s (parse s refs) = [] then .ok (.rats []) else .error err) := by
+  show (s, (getValsIds s (parse s refs) (validateGet iter ts)).map Out.rats) = _
+  rw [hbad]
+  unfold getValsIds selected
+  rw [getLoop_error_slot _ _ _ _ _ (fun p hp => inv_N2 hI p hp)]
+  split <;> rfl
+
+/-- A write with inadmissible indices never changes the state either: ValueError as soon as one
+    addressed variable is registered; otherwise only the final size assertion is evaluated. -/
+theorem set_bad_indices (e : Env) (s : State) (hI : Inv e s) (values : List Rat)
+    (refs : Option (List Ref)) (iter ts : Option Int) (additive : Bool) (err : Err)
+    (hbad : validateSet iter ts = .error err) :
+    step e s (.setVals values refs iter ts additive) =
+      (s, if selected s (parse s refs) = [] then
+            (if values = [] then .ok .unit else .error .assertion)
+          else .error err) := by
+  show ((setValsIds s values (parse s refs) (validateSet iter ts) additive).1,
+    (setValsIds s values (parse s refs) (validateSet iter ts) additive).2.map (fun _ => Out.unit)) = _
+  rw [hbad]
+  unfold setValsIds selected
+  rw [setLoop_error_slot _ _ _ _ _ _ _ _ _ (fun p hp => inv_N2 hI p hp)]
+  by_cases hsel : s.numbers.filter (fun p => decide (p.1 ∈ parse s refs)) = []
+  · simp only [hsel, if_true]
+    cases values with
+    | nil => simp; rfl
+    | cons a r => simp; rfl
+  · simp only [hsel, if_false]
+    rfl
+
+/-! ### removing several variables in one call -/
+
+/-- Removing a duplicate-free list of registered variables in ONE call succeeds and gives exactly
+    the state obtained by one call per variable, taken in ANY order `ids'`; the remaining variables
+    are the others, and the layout is the canonical clustering of what remains. -/
+theorem remove_multi_eq_sequential (e : Env) (hn : e.order.Nodup) (s : State) (hI : Inv e s)
+    (ids ids' : List Nat) (hp : ids.Perm ids') (hnd : ids.Nodup)
+    (hreg : ∀ i ∈ ids, i ∈ s.vars.map (·.id)) :
+    (removeLoop e s ids).2 = .ok () ∧
+    (removeLoop e s ids).1 = seqRemove e s ids' ∧
+    (removeLoop e s ids).1.vars = s.vars.filter (fun v => !(ids.contains v.id)) ∧
+    (ids ≠ [] → Canonical e (removeLoop e s ids).1) := by
+  have hnd' := hp.nodup_iff.mp hnd
+  have hreg' : ∀ i ∈ ids', i ∈ s.vars.map (·.id) := fun i hi => hreg i (hp.mem_iff.mpr hi)
+  refine ⟨?_, ?_, ?_, ?_⟩
+  · by_cases hnil : ids = []
+    · subst hnil; rfl
+    · exact (removeLoop_spec e hn ids s hI hnd hreg (Or.inr hnil)).1
+  · rw [seqRemove_eq e hn ids' s hI hnd' hreg']
+    exact removeLoop_perm e hn s hI ids ids' hp hnd hreg
+  · by_cases hnil : ids = []
+    · subst hnil
+      exact (List.filter_eq_self.mpr (fun _ _ => rfl)).symm
+    · exact (removeLoop_spec e hn ids s hI hnd hreg (Or.inr hnil)).2.1
+  · intro hnil
+    exact (removeLoop_spec e hn ids s hI hnd hreg (Or.inr hnil)).2.2.1
+
 /-! ### non-vacuity: a concrete md-grid and history -/
 
 /-- md-grid with a 2-d subdomain (key 2), a 1-d subdomain (key 0) and an interface (key 1) -/
@@ -416,6 +493,22 @@ example : outputs exEnv init [.create 0 [(0, 1)] (some [0, 7, 2]) none, .numDofs
       .create 0 [(0, 1)] (some [2, 2]) none, .create 5 [(3, 1)] (some [2]) none,
       .create 5 [] (some [2]) (some [1]), .create 5 [] (some [1]) none]
     = [.error .key, .ok (.num 3), .error .assertion, .error .value, .error .value, .error .assertion] := by
+  decide +kernel
+
+/-- removing [λ, empty, p(2-d)] in one call = removing them one by one in another order -/
+example :
+    let s := run exEnv init exOps
+    let a := (removeLoop exEnv s [2, 3, 1]).1
+    let b := seqRemove exEnv s [1, 2, 3]
+    (a.vars, a.numbers, a.sizes) = (b.vars, b.numbers, b.sizes) ∧ a.numbers = [(4, 0)] ∧ a.sizes = [4] := by
+  decide +kernel
+
+/-- inadmissible indices: both given / none / negative -/
+example : outputs exEnv (run exEnv init exOps)
+    [.getVals none (some 0) (some 0), .getVals none none none, .getVals none (some (-1)) none,
+     .getVals (some [.name 9]) none none, .setVals [] (some [.var 4]) none none false,
+     .setVals [1] (some [.name 9]) none (some (-2)) true]
+    = [.error .value, .error .value, .error .value, .ok (.rats []), .error .value, .error .assertion] := by
   decide +kernel
 
 end PorepyVerif.C05
